@@ -82,6 +82,9 @@ def _imports(col):
     import_obligations(col, "C04.R8", "c09", lambda o: o.detail == "refusal:chained comparison",
                        "a chained comparison must stay refused (or be lowered like `and`): evaluating all its operands up front runs a First() or an "
                        "index that an earlier false link should have protected")
+    import_obligations(col, "C04.R8", "c17", lambda o: o.detail == "stream-consumed-to-its-end",
+                       "the failure of the container (a thrown First() on an empty sequence) is reported only when its output stream is exhausted: "
+                       "a loop that stops reading early returns the partial file as the result")
     import_obligations(col, "C04.R8", "c05", lambda o: o.rule == "C05.R6",
                        "an event that throws must end the job, not be skipped silently")
 
